@@ -477,6 +477,15 @@ func (s *IndexedState) rem(ctx *Context, id string) (bool, error) {
 			return false, nil
 		}
 
+		// Storage first.  If that fails, the fact stays where it
+		// is: otherwise it would be gone here but not there, and
+		// another attempt to remove it would find nothing to do,
+		// report success and leave it in storage for good.
+		_, err = s.Store.Remove(ctx, s.Name, []byte(id))
+		if err != nil {
+			return false, err
+		}
+
 		if rule != nil {
 			if err := s.unindexRule(ctx, id, rule); err != nil {
 				return false, err
@@ -486,11 +495,6 @@ func (s *IndexedState) rem(ctx *Context, id string) (bool, error) {
 		delete(s.IdToFact, id)
 
 		s.FactIndex.RemIdTerms(ctx, ExtractTerms(ctx, fact), id)
-
-		_, err = s.Store.Remove(ctx, s.Name, []byte(id))
-		if err != nil {
-			return true, err
-		}
 	} else {
 		Log(DEBUG, ctx, "IndexedState.rem", "state", s.Name, "id", id, "warning", "not found")
 	}
